@@ -714,6 +714,55 @@ def rule_slot_number(chk, prog, table=("struct.fstree_t", "inodes"), num=("struc
     return n
 
 
+def rule_last_chunk(chk, prog, everywhere=False):
+    """K13-lastchunk: a remainder is not a chunk length.  Where `x % N` (N a constant) flows into the byte count of a transfer
+    (a metadata append, a copy, a write, padding), the function also compares that remainder with 0: an exact multiple has a
+    remainder of 0, and what is meant is either "nothing more" (padding) or "a full chunk" (the last block of a table).
+    Taken as it is for the last chunk, a table of exactly k * 8192 bytes loses its last block."""
+    LEN_ARG = {"sqfs_meta_writer_append": 2, "memcpy": 2, "memmove": 2, "memset": 2, "sqfs_istream_skip": 1, "sqfs_istream_read": 2}
+    n = 0
+    for f in prog.functions():
+        if f.decl or "/test/" in f.unit.src or not (everywhere or f.unit.src.startswith(("lib/sqfs/src/", "lib/common/src/", "lib/tar/src/"))):
+            continue
+        f.build()
+        for r in f.insts():
+            if r.op != "urem" or not (r.ops[1].is_const and r.ops[1].is_int and r.ops[1].uval >= 2):
+                continue
+            web, work = [r], [r]
+            compared = False
+            sink = None
+            while work:
+                v = work.pop()
+                for u in f.uses.get(v, []):
+                    if u.op in ("zext", "sext", "trunc", "phi", "select"):
+                        if all(u is not w for w in web):
+                            web.append(u)
+                            work.append(u)
+                    elif u.op == "icmp" and any(o.is_const and o.is_int and o.sval == 0 for o in u.ops):
+                        compared = True
+                    elif u.op == "call":
+                        nm = norm_callee(u.callee) if u.callee else None
+                        k = LEN_ARG.get(nm)
+                        sc = slot_call(u)
+                        if sc == ("struct.sqfs_ostream_t", "append"):
+                            k = 2
+                        elif sc == ("struct.sqfs_file_t", "write_at"):
+                            k = 3
+                        if k is not None and k < len(u.ops) and any(strip_casts(u.ops[k]) is w for w in web):
+                            sink = u
+            if sink is None:
+                continue
+            n += 1
+            chk.analysed(f)
+            inst = "%s:rem@%d" % (f.name, r.line)
+            if compared:
+                chk.ok("K13-lastchunk", inst, r, "the remainder is compared with 0 before it is used as a byte count")
+            else:
+                chk.violation("K13-lastchunk", inst, sink, "a remainder (x %% %d) is used as the byte count of a transfer without being "
+                              "compared with 0: for an exact multiple the last chunk is empty instead of full" % r.ops[1].uval)
+    return n
+
+
 def run(chk):
     chk.explanation = (
         "The invariants themselves are predicates over image bytes (value-level). Decided: the structural checks the "
@@ -724,7 +773,7 @@ def run(chk):
         "(directory header run limits incl. the exact 256-entry bound, id count, name length, device number, timestamps) "
         "or a reasoned exception; K13-padding: pad length is a remainder by cfg->devblksize; K1-metablock: 8 KiB limit "
         "and uncompressed fallback. Sortedness, dense inode numbering and reference resolution are "
-        "not decided; of index placement only K11-indexpos (the block recorded for a directory index is queried before its header is appended). K13-truncate and K11-everyblock (shared with C08) decide two layout-consistency conditions of the block writer. 'Directory listings are strictly sorted': K2-sorted (siblings are linked into the tree at a position chosen by strcmp of the names, whatever order entries arrive in) and K2-exact (a length-limited name comparison also checks that the name ends there). K12-appendsame: a list that is appended to under 'differs from the last element' stores the value it compared. K12-slotnum: where slots of the inode table are rewritten (single stores, memmove), the numbers of the nodes that moved are stored before a node's number is read as its slot again (a necessary condition of dense numbering and of every reference resolving after hard links were reordered).")
+        "not decided; of index placement only K11-indexpos (the block recorded for a directory index is queried before its header is appended). K13-truncate and K11-everyblock (shared with C08) decide two layout-consistency conditions of the block writer. 'Directory listings are strictly sorted': K2-sorted (siblings are linked into the tree at a position chosen by strcmp of the names, whatever order entries arrive in) and K2-exact (a length-limited name comparison also checks that the name ends there). K12-appendsame: a list that is appended to under 'differs from the last element' stores the value it compared. K12-slotnum: where slots of the inode table are rewritten (single stores, memmove), the numbers of the nodes that moved are stored before a node's number is read as its slot again (a necessary condition of dense numbering and of every reference resolving after hard links were reordered). K13-lastchunk: a remainder that is used as the byte count of a transfer is compared with 0 (an exact multiple has a full last chunk, not an empty one); K13-highwater as in C01.")
     chk.assumptions = ["superblock commit order and bytes_used are decided by the C14 check"]
     prog = load_program("gensquashfs")
     rule_compressor_contract(chk, prog)
@@ -737,6 +786,19 @@ def run(chk):
     chk.floor("K13-notfull", 1)
     rule_slot_number(chk, prog)
     chk.floor("K12-slotnum", 2)
+    rule_last_chunk(chk, load_program("all"))
+    from ..controls import control_program
+    from ..report import Check
+    sub = Check("C03-control", chk.tier)
+    rule_last_chunk(sub, control_program("c03_controls.c"), everywhere=True)
+    got = {(o["rule"], o["function"]) for o in sub.obl if o["verdict"] == "VIOLATED"}
+    chk.control("K13-lastchunk", ("K13-lastchunk", "ctl_last_chunk_rem") in got, "remainder used as the length of the last chunk")
+    chk.control("K13-lastchunk/silent", ("K13-lastchunk", "ctl_last_chunk_ok") not in got, "remainder compared with 0 must not be reported")
+    # "inode ... tables parse": the list of block sizes behind a file inode is as long as the file needs, whatever order the
+    # block processor records the sizes in (K13-highwater of C01)
+    from .c01 import rule_highwater
+    rule_highwater(chk, prog)
+    chk.floor("K13-highwater", 1)
     chk.floor("K12-nlink", 1)
     from .c02 import rule_seqstamp
     rule_seqstamp(chk, prog)
